@@ -640,6 +640,17 @@ func runGaugeHistory(e *Env, hI int) {
 	for k := 0; k < 2+r.N(3); k++ {
 		g.stake()
 	}
+	// every malformed weight once, from a delegator and from a validator operator, next to a valid entry: each must be rejected —
+	// a stored vote that the tally cannot parse is read again at every epoch boundary
+	if hI%2 == 0 {
+		for k, bw := range badWeights {
+			who := nVals + k%3
+			if k%2 == 1 {
+				who = k % nVals
+			}
+			g.voteAs(who, []litypes.PoolWeight{{PoolId: g.pools[0], Weight: "0.25"}, {PoolId: g.pools[len(g.pools)-1], Weight: bw}}, "bad_weight_directed")
+		}
+	}
 	// opening with an epoch whose gauges all count zero: the only votes that reach the first tally carry no countable power
 	// (a weight of 0, or a dust stake times a small weight truncating to 0), then blocks across the epoch boundary with emissions
 	if hI%3 == 1 {
